@@ -112,29 +112,49 @@ def run_name(run):
         return "?"
 
 
+def split_segments(run):
+    """a concurrent run = prefix (reset, setup, mark) + one segment per schedule (starting at "rewind")"""
+    prefix, segs = [], []
+    for ln in run:
+        if ln.startswith('{"ev":"rewind"') or '"ev":"rewind"' in ln[:60]:
+            segs.append([ln])
+        elif segs:
+            segs[-1].append(ln)
+        else:
+            prefix.append(ln)
+    return prefix, segs
+
+
 def validate_file(path, props, module="TraceAbs"):
     """Validate every run of a trace file.  Returns dict with failures:
-    [{prop, check, run, line, event}], counts.  A rejected run is diagnosed
-    (iteratively dropping the properties that failed) and validation continues
-    with the runs after it."""
+    [{prop, check, run, line, event}], counts.  A rejected run (or, for
+    concurrent runs, the rejected schedule) is diagnosed (iteratively dropping
+    the properties that failed), removed, and validation continues."""
     hdr, runs = split_runs(path)
+    units = [split_segments(r) for r in runs]
     res = {"runs": len(runs), "events": sum(len(r) for r in runs), "failures": [], "states": 0,
-           "generated": 0, "tlc_s": 0.0, "accepted_runs": 0}
+           "generated": 0, "tlc_s": 0.0, "accepted_runs": 0, "segments": sum(max(1, len(u[1])) for u in units)}
     start = 0
     rounds = 0
-    while start < len(runs):
+    while start < len(units):
         rounds += 1
-        if rounds > 60:
+        if rounds > 80:
             raise ToolError("too many rejected runs in %s" % path)
         tmp = tempfile.NamedTemporaryFile("w", suffix=".ndjson", dir=WORK, delete=False)
         tmp.write(json.dumps({"ev": "hdr", "props": sorted(props)}) + "\n")
-        offs = []
+        index = []   # (first line, unit index, segment index or -1)
         n = 1
-        for r in runs[start:]:
-            offs.append(n + 1)
-            for ln in r:
+        for ui in range(start, len(units)):
+            prefix, segs = units[ui]
+            index.append((n + 1, ui, -1))
+            for ln in prefix:
                 tmp.write(ln)
-            n += len(r)
+            n += len(prefix)
+            for si, sg in enumerate(segs):
+                index.append((n + 1, ui, si))
+                for ln in sg:
+                    tmp.write(ln)
+                n += len(sg)
         tmp.close()
         rc, out, dt = tlc(module, env={"TRACE": tmp.name}, deque=True)
         os.unlink(tmp.name)
@@ -143,18 +163,25 @@ def validate_file(path, props, module="TraceAbs"):
         res["generated"] += g
         res["tlc_s"] += dt
         if '"ACCEPTED"' in out and rc == 0:
-            res["accepted_runs"] += len(runs) - start
+            res["accepted_runs"] += sum(max(1, len(u[1])) for u in units[start:])
             break
         m = re.search(r'<<"REJECTED", (\d+), "([a-z]+)">>', out)
         if not m:
             raise ToolError("TLC failed on %s:\n%s" % (path, out[-3000:]))
         line = int(m.group(1))
-        # which run?
-        ri = max(i for i, o in enumerate(offs) if o <= line)
-        res["accepted_runs"] += ri
-        bad = runs[start + ri]
-        res["failures"] += diagnose(bad, props, module)
-        start = start + ri + 1
+        first, ui, si = max((x for x in index if x[0] <= line), key=lambda x: x[0])
+        prefix, segs = units[ui]
+        res["accepted_runs"] += sum(max(1, len(u[1])) for u in units[start:ui])
+        if si < 0:
+            # the sequential part itself is rejected: the whole run goes
+            res["failures"] += diagnose(prefix + [l for sg in segs for l in sg], props, module)
+            start = ui + 1
+        else:
+            res["failures"] += diagnose(prefix + segs[si], props, module)
+            del segs[si]
+            start = ui
+            if not segs:
+                start = ui + 1
     return res
 
 
